@@ -91,13 +91,31 @@ class SharedObjects:
         except Exception as e:          # the kind of failure is part of the behaviour
             return ("exc", type(e).__name__)
 
-    def check(self, key, make, call, d, info, mutants=2, poison=()):
+    DEEP = 320
+
+    def deep_poison(self, d):
+        """a legal but absurdly nested tree: `x OR (((( ... d ... ))))`. Most recursive walks of the library give up
+        on it with RecursionError somewhere in the middle (the caller catches it); what they had noted on the
+        way -- an operator seen, names given, chunks collected -- must not leak into the next call (seeded round E:
+        C10, C15, C18 keep such state on the instance and clear it only at the end of a successful call)"""
+        wrapper = self.rng.choice(["Group", "Group", "Plus", "Not"])
+        inner = d
+        for _ in range(self.DEEP):
+            inner = gen.mk(wrapper, [inner])
+        first = gen.W("x")
+        first["t"] = " "
+        inner["h"] = " "
+        return gen.mk(self.rng.choice(["OrOperation", "AndOperation"]), [first, inner])
+
+    def check(self, key, make, call, d, info, mutants=2, poison=(), deep=0.2):
         key = repr(key)
         if key not in self.objs:
             self.objs[key] = make()
         shared = self.objs[key]
         # inputs on which the call fails half-way: whatever they leave behind must not show afterwards
         todo = [("a tree on which the call fails", dd) for dd in poison if dd is not None]
+        if deep and self.rng.random() < deep:
+            todo.append(("a deeply nested tree (the call gives up with RecursionError)", self.deep_poison(d)))
         todo += [("the same tree", d)]
         for _ in range(mutants):
             mu = gen.mutate_tree(self.rng, d)
@@ -117,3 +135,43 @@ class SharedObjects:
                 # a polluted object would fail on everything that follows: start again
                 self.objs[key] = make()
                 shared = self.objs[key]
+
+
+def probe_new_parameters(ctx, label, shared, make_fresh, known, good, bad, render):
+    """The pinned entry points take the parameters in `known`. A change may add an OPTIONAL one (a per-call option);
+    using it -- on a tree that makes the call fail, then on one that succeeds -- must not change what later plain
+    calls on the same long-lived object answer (seeded C13-F: a per-call `spacer` swapped into the instance and
+    restored without try/finally). Nothing is probed while the signature is the pinned one."""
+    import inspect
+    try:
+        params = inspect.signature(shared.__call__).parameters.values()
+    except (TypeError, ValueError):
+        return
+    extra = [p for p in params if p.name not in known and p.default is not inspect.Parameter.empty
+             and p.kind in (p.POSITIONAL_OR_KEYWORD, p.KEYWORD_ONLY)]
+    for p in extra:
+        ctx.notes.append("%s has a parameter %r that the pinned tree does not have: probed" % (label, p.name))
+        d = p.default
+        cands = [not d] if isinstance(d, bool) else [d + 1, 0] if isinstance(d, int) and d is not None else \
+            [d + "\n", "\n", "_"] if isinstance(d, str) else ["\n", "_", 1, True, ()]
+        for v in cands:
+            for tree in list(bad) + list(good):
+                try:
+                    shared(common.load_tree(tree), **{p.name: v})
+                except Exception:
+                    pass
+                for g in good:
+                    try:
+                        want = ("ok", render(make_fresh()(common.load_tree(g))))
+                    except Exception as e:
+                        want = ("exc", type(e).__name__)
+                    try:
+                        got = ("ok", render(shared(common.load_tree(g))))
+                    except Exception as e:
+                        got = ("exc", type(e).__name__)
+                    ctx.count("history: optional parameter probed")
+                    if got != want:
+                        ctx.fail("after a call with the optional parameter %s=%r the long-lived %s answers plain calls "
+                                 "differently from a fresh one" % (p.name, v, label),
+                                 {"tree": g, "previous": tree, "fresh": want, "shared": got})
+                        return
